@@ -1208,11 +1208,15 @@ class SymX:
     def _reduce_as_loop(self, c, st, f, depth):
         """functools.reduce(fn, xs, start)  ==  acc = start; for x in xs: acc = fn(acc, x) - evaluated as that loop."""
         fv = self.expr(c.args[0], st, f, depth)
-        if fv[0] != "closure" and not (fv[0] == "v" and fv[1] in f.mod.funcs):
+        builtin = isinstance(c.args[0], ast.Name) and c.args[0].id in ("min", "max") and c.args[0].id not in st.env
+        if not builtin and fv[0] != "closure" and not (fv[0] == "v" and fv[1] in f.mod.funcs):
             return None
         n = next(self._ids)
         fn, acc, x = "$rf%d" % n, "$racc%d" % n, "$rx%d" % n
-        st.env[fn] = fv
+        if builtin:
+            fn = c.args[0].id
+        else:
+            st.env[fn] = fv
         st.env[acc] = self.expr(c.args[2], st, f, depth)
         step = ast.Assign(targets=[ast.Name(id=acc, ctx=ast.Store())],
                           value=ast.Call(func=ast.Name(id=fn, ctx=ast.Load()), args=[ast.Name(id=acc, ctx=ast.Load()), ast.Name(id=x, ctx=ast.Load())], keywords=[]))
